@@ -20,7 +20,7 @@ type hist struct {
 	desc    string
 	fields  []ff.Field // 0 = main field, 1 = a second, separately defined field object of the same kind
 	foreign ff.Element
-	ur      [3]*univariate.QuotientRing
+	ur      [4]*univariate.QuotientRing
 	br      [3]*bivariate.QuotientRing
 	ord     bivariate.Order
 
@@ -302,6 +302,21 @@ func newHist(fd, uSpec, bSpec string) *hist {
 			panic("Quotient: " + err.Error())
 		}
 		h.ur[1] = qr
+	}
+	if len(up) > 3 && up[3] != "-" {
+		var gens []*univariate.Polynomial
+		for _, g := range strings.Split(up[3], ";") {
+			gens = append(gens, h.decU(h.ur[0], g))
+		}
+		id, err := h.ur[0].NewIdeal(gens...)
+		if err != nil {
+			panic("NewIdeal: " + err.Error())
+		}
+		qr, err := h.ur[0].Quotient(id)
+		if err != nil {
+			panic("Quotient: " + err.Error())
+		}
+		h.ur[3] = qr
 	}
 	bp := strings.SplitN(bSpec, ":", 5)
 	ordS, vx, vy := "lex.1", "X", "Y"
@@ -644,10 +659,16 @@ func (h *hist) step(line string) (out string) {
 			}
 		case k == 'q':
 			switch {
-			case contains([]string{"map", "nats", "ints", "str", "zero", "regs"}, op):
+			case contains([]string{"map", "nats", "ints", "str", "zero", "regs", "embed"}, op):
 				R := h.br[idx]
 				var p *bivariate.Polynomial
 				switch op {
+				case "embed":
+					pp := strings.Split(a0, ":")
+					p = h.bs[regNum(pp[0])].Copy()
+					if err := p.EmbedIn(R, pp[1] == "1"); err != nil {
+						return "err " + kindOf(err)
+					}
 				case "regs":
 					m := map[[2]uint]ff.Element{}
 					if a0 != "" && a0 != "-" {
